@@ -91,6 +91,7 @@ type caseT struct {
 	Text    string   `json:"text,omitempty"`
 	Quoted  string   `json:"quoted,omitempty"`
 	Target  string   `json:"target,omitempty"`
+	GoTest  string   `json:"go_test,omitempty"`
 }
 
 func run(c *core.Ctx) {
@@ -127,6 +128,9 @@ func legA(c *core.Ctx) {
 			in = append(in, ch...)
 		}
 		cs := caseT{Leg: "A", Machine: m.Name, Multi: cfg.Multi, Entry: entry, Chunks: chunks, ReadErr: readErr, Quoted: fmt.Sprintf("%q", in)}
+		if readErr == 0 {
+			cs.GoTest = mach.GoTest(m.Name, entry, chunks, cfg.Multi)
+		}
 		c.Fail(core.Sig("fe="+m.Name+"."+entry, fmt.Sprintf("multi=%v", cfg.Multi), "mode="+mode, "panic="+kind, "site="+o.PanicSite), cs, len(in), "error result or success", fmt.Sprintf("panic: %v", o.Panic))
 	}
 	e.OnState = func(s *bytemc.State) {
